@@ -615,12 +615,100 @@ fn part_free_running(run: &mut Run, refs: &HashMap<String, Artefacts>) {
     }
 }
 
+// ------------------------------------------------------------------ (h)
+/// History independence: every sequence of compile / prove calls (circuits of
+/// different, non-power-of-two sizes) up to a depth, each sequence on its own
+/// fresh OS thread; every call must return what it returns alone on a fresh
+/// thread (no state may leak from earlier calls through thread-locals, caches
+/// or reused buffers).
+fn part_history(run: &mut Run, tier: Tier) {
+    use crate::c01::{sized, Shape};
+    let pp = crate::setup::pp(128);
+    let sizes = [12usize, 24, 40];
+    let progs: Vec<crate::prog::Prog> = sizes.iter().map(|c| sized(*c, &Shape::Pi(vec![4, -1]))).collect();
+    let keys: Vec<(Prover, Verifier)> = progs.iter().enumerate().map(|(i, p)| Compiler::compile_with_circuit(&pp, format!("hist-{}", i).as_bytes(), p).expect("compile")).collect();
+    // ops: 0..3 = prove circuit i with its keys; 3..6 = compile circuit i
+    let n_ops = 6usize;
+    let do_op = |op: usize| -> Vec<u8> {
+        if op < 3 {
+            let mut rng = crate::rng::ScriptedRng::base(seed(), 900 + op as u64);
+            let p = progs[op].with_overrides(vec![]);
+            match keys[op].0.prove(&mut rng, &p) {
+                Ok((proof, pis)) => {
+                    let ok = keys[op].1.verify(&proof, &pis).is_ok();
+                    let mut v = proof.to_bytes().to_vec();
+                    for x in pis {
+                        v.extend_from_slice(&x.to_bytes());
+                    }
+                    v.push(ok as u8);
+                    v
+                }
+                Err(e) => format!("ERR {:?}", e).into_bytes(),
+            }
+        } else {
+            let i = op - 3;
+            let p = progs[i].with_overrides(vec![]);
+            match Compiler::compile_with_circuit(&pp, format!("hist-{}", i).as_bytes(), &p) {
+                Ok((pr, ve)) => {
+                    let mut v = pr.to_bytes();
+                    v.extend(ve.to_bytes());
+                    v
+                }
+                Err(e) => format!("ERR {:?}", e).into_bytes(),
+            }
+        }
+    };
+    let op_name = |op: usize| -> String { if op < 3 { format!("prove(c={})", sizes[op]) } else { format!("compile(c={})", sizes[op - 3]) } };
+    // references: each op alone on a fresh thread
+    let reference: Vec<Vec<u8>> = (0..n_ops).map(|op| std::thread::scope(|s| s.spawn(|| do_op(op)).join().expect("reference op"))).collect();
+    let depth = tier.pick(2usize, 3usize);
+    let mut seqs: Vec<Vec<usize>> = vec![vec![]];
+    for _ in 0..depth {
+        let mut next = vec![];
+        for s in &seqs {
+            for op in 0..n_ops {
+                let mut t = s.clone();
+                t.push(op);
+                next.push(t);
+            }
+        }
+        seqs.extend(next.clone());
+        seqs.retain(|s| !s.is_empty());
+        seqs.sort();
+        seqs.dedup();
+    }
+    let results: Vec<(Vec<usize>, Vec<Vec<u8>>)> = std::thread::scope(|sc| {
+        let hs: Vec<_> = seqs.iter().map(|sq| { let sq = sq.clone(); let f = &do_op; sc.spawn(move || { let r: Vec<Vec<u8>> = sq.iter().map(|op| f(*op)).collect(); (sq, r) }) }).collect();
+        hs.into_iter().filter_map(|h| h.join().ok()).collect()
+    });
+    run.gate("history sequences all ran", results.len() == seqs.len());
+    for (sq, res) in results {
+        run.states += 1;
+        run.traces_validated += 1;
+        run.transitions += sq.len() as u64;
+        run.nontrivial(fnv(format!("hist{:?}", sq).as_bytes()));
+        for (k, (op, r)) in sq.iter().zip(res.iter()).enumerate() {
+            if *r != reference[*op] {
+                let names: Vec<String> = sq.iter().map(|o| op_name(*o)).collect();
+                run.violation(
+                    &format!("history/{}-depends-on-earlier-calls", if *op < 3 { "prove" } else { "compile" }),
+                    &format!("on one thread, call #{} of the sequence {:?} returned bytes that differ from the same call on a fresh thread", k + 1, names),
+                    json!({"name": "history", "sequence": names, "position": k}),
+                );
+                break;
+            }
+        }
+    }
+    run.outcome_n("history:sequences", seqs.len() as u64);
+    run.sample(json!({"part": "history", "depth": depth, "sequences": seqs.len(), "ops": (0..n_ops).map(op_name).collect::<Vec<_>>()}));
+}
+
 pub fn main(tier: Tier, _replay: Option<serde_json::Value>) -> i32 {
     if std::env::var("VP_C18_CHILD").is_ok() {
         return child_hashes();
     }
     let mut run = Run::new("C18", tier, "model_checking");
-    run.rule = "(a) deviation-bounded exploration of every parallel region (rayon shim: task orders, join orders, reduction shapes, thread counts) and hash-map iteration site (hashbrown shim) of compile / prove / verify / compress, real dusk-plonk code, byte-identity with the canonical schedule [sub-process, merged]; shim build = real build on reference bytes; (b) fresh processes (OS-random hash seeds, RAYON_NUM_THREADS); (c) explicit real pools of 1..=17 threads; (d) alloc-only build vs std build; (e) E6: exhaustive controlled-scheduler exploration (preemption-bounded DFS, scheduling points at operation boundaries and the label-cache lock region) of concurrent prove / verify / compile calls vs their sequential results; (f) 16 free-running threads on shared keys; (g) equality with the reference prover M3 for n = 32; non-trivial = schedules with a real permutation + distinct E6 schedules + distinct configurations compared".into();
+    run.rule = "(a) deviation-bounded exploration of every parallel region (rayon shim: task orders, join orders, reduction shapes, thread counts) and hash-map iteration site (hashbrown shim) of compile / prove / verify / compress, real dusk-plonk code, byte-identity with the canonical schedule [sub-process, merged]; shim build = real build on reference bytes; (b) fresh processes (OS-random hash seeds, RAYON_NUM_THREADS); (c) explicit real pools of 1..=17 threads; (d) alloc-only build vs std build; (e) E6: exhaustive controlled-scheduler exploration (preemption-bounded DFS, scheduling points at operation boundaries and the label-cache lock region) of concurrent prove / verify / compile calls vs their sequential results; (f) 16 free-running threads on shared keys; (g) equality with the reference prover M3 for n = 32; (h) history independence: every sequence of compile / prove calls over circuits of three different sizes up to depth 2 (thorough 3), each on a fresh thread, returns per call what the call returns alone; non-trivial = schedules with a real permutation + distinct E6 schedules + distinct configurations compared".into();
     // the schedule explorer is a separate process tree: let it run while the
     // latency-bound parts (E6, fresh processes) proceed, then merge it
     let sched = std::thread::spawn(move || {
@@ -636,6 +724,7 @@ pub fn main(tier: Tier, _replay: Option<serde_json::Value>) -> i32 {
     });
     part_e6(&mut run, tier);
     part_m3(&mut run);
+    part_history(&mut run, tier);
     let sub = sched.join().expect("sched thread");
     run.merge(sub);
     let sub = procs.join().expect("process thread");
